@@ -3,6 +3,7 @@ package main
 // E3 (part 4): transfer functions of non-call instructions.
 
 import (
+	"go/constant"
 	"fmt"
 	"go/token"
 	"go/types"
@@ -54,6 +55,29 @@ func (sa *Safe) step(fr *frame, st *State, ins ssa.Instruction) {
 					sa.fullyInit = map[*AObj]bool{}
 				}
 				sa.fullyInit[o] = true
+			}
+			if es, isStruct := arr.Elem().Underlying().(*types.Struct); isStruct {
+				// small arrays of structs with pointer fields (a table of (name, address) rows): every
+				// pointer field of every element starts nil and is tracked
+				tracked := false
+				for k := int64(0); k < arr.Len(); k++ {
+					for fi := 0; fi < es.NumFields(); fi++ {
+						if _, isPtr := es.Field(fi).Type().Underlying().(*types.Pointer); isPtr {
+							sa.storePath(st, o, fmt.Sprintf("[%d].%s", k, es.Field(fi).Name()), sa.zero(st, es.Field(fi).Type()))
+							tracked = true
+						}
+						if _, isInt := intRange(es.Field(fi).Type()); isInt {
+							sa.storePath(st, o, fmt.Sprintf("[%d].%s", k, es.Field(fi).Name()), AVal{Kind: avInt, Lin: linConst(0), Type: es.Field(fi).Type()})
+							tracked = true
+						}
+					}
+				}
+				if tracked {
+					if sa.fullyInit == nil {
+						sa.fullyInit = map[*AObj]bool{}
+					}
+					sa.fullyInit[o] = true
+				}
 			}
 			if _, isInt := intRange(arr.Elem()); isInt {
 				for k := int64(0); k < arr.Len(); k++ {
@@ -115,15 +139,59 @@ func (sa *Safe) step(fr *frame, st *State, ins ssa.Instruction) {
 			length = b.Len
 		}
 		sa.needIndex(fr, st, idx.Lin, length, exprText(x), x.Pos())
+		if stt, isStruct := x.Type().Underlying().(*types.Struct); isStruct && b.Kind == avUnknown && b.Fields != nil {
+			v := AVal{Kind: avStruct, Fields: map[string]AVal{}, Type: x.Type()}
+			for i := 0; i < stt.NumFields(); i++ {
+				f := stt.Field(i)
+				if sv, ok := b.Fields[f.Name()]; ok {
+					v.Fields[f.Name()] = sv
+				} else {
+					v.Fields[f.Name()] = sa.freshM(fr, st, f.Type(), exprText(x)+"."+f.Name(), nilMaybe)
+				}
+			}
+			fr.regs[x] = v
+			return
+		}
+		if g := sa.tableByPath[b.Path]; g != nil && strings.HasPrefix(b.Path, "table:") {
+			fr.regs[x] = sa.tableElem(fr, st, g, "", x.Type(), exprText(x))
+			return
+		}
 		fr.regs[x] = sa.freshM(fr, st, x.Type(), exprText(x), nilMaybe)
 	case *ssa.Lookup:
 		b := sa.val(fr, st, x.X)
 		idx := sa.val(fr, st, x.Index)
-		if _, isMap := x.X.Type().Underlying().(*types.Map); isMap {
+		if mt, isMap := x.X.Type().Underlying().(*types.Map); isMap {
 			v := sa.freshM(fr, st, x.Type(), exprText(x), nilMaybe)
+			if rg, isInt := intRange(mt.Elem()); isInt {
+				// a lookup table of integers (a package-level map written only by its initialiser with
+				// constant values): the value read is one of them, or the zero value for a missing key
+				if iv, ok := sa.intTable(x.X); ok {
+					mk := func() AVal {
+						a := sa.mAtom(fr, exprText(x), rg)
+						st.itv[a] = iv.meet(rg)
+						return AVal{Kind: avInt, Lin: linAtom(a), Type: mt.Elem()}
+					}
+					if x.CommaOk {
+						fr.regs[x] = AVal{Kind: avTuple, Elts: []AVal{mk(), {Kind: avBool}}, Type: x.Type()}
+					} else {
+						fr.regs[x] = mk()
+					}
+					return
+				}
+			}
 			if x.CommaOk {
 				tv := x.Type().(*types.Tuple)
-				v = AVal{Kind: avTuple, Elts: []AVal{sa.freshM(fr, st, tv.At(0).Type(), exprText(x), nilMaybe), {Kind: avBool}}, Type: x.Type()}
+				elt := sa.freshM(fr, st, tv.At(0).Type(), exprText(x), nilMaybe)
+				okv := AVal{Kind: avBool}
+				if elt.Kind == avFunc && !elt.HasSym {
+					elt.Sym, elt.HasSym = sa.mSym(fr, exprText(x)), true
+				}
+				if sa.nonNilTable(x.X) && elt.HasSym {
+					// a lookup table (a package-level map written only by its initialiser) all of whose
+					// values are non-nil: the value is non-nil exactly when the key was found
+					okv.Cond = &Cond{Op: "not", A: &Cond{Op: "nil", Sym: elt.Sym}}
+				}
+				v = AVal{Kind: avTuple, Elts: []AVal{elt, okv}, Type: x.Type()}
 			}
 			fr.regs[x] = v
 		} else {
@@ -271,7 +339,58 @@ func (sa *Safe) unop(fr *frame, st *State, x *ssa.UnOp) {
 	switch x.Op {
 	case token.MUL:
 		sa.needNonNil(fr, st, v, exprText(x.X), x.Pos())
+		if g, pat := tableAddr(x.X); g != nil && pat != "" && sa.readOnlyTable(g) {
+			// a load through an address inside a read-only table
+			if rg, isInt := intRange(x.Type()); isInt {
+				if iv, ok := sa.tableInfo[g][pat]; ok {
+					a := sa.mAtom(fr, exprText(x), rg)
+					st.itv[a] = iv.meet(rg)
+					fr.regs[x] = AVal{Kind: avInt, Lin: linAtom(a), Type: x.Type()}
+					return
+				}
+			}
+		}
 		lv := sa.loadM(fr, st, v.Obj, v.Path, x.Type(), exprText(x))
+		if arr, isArr := x.Type().Underlying().(*types.Array); isArr && lv.Kind == avUnknown && v.Obj != nil && !v.Obj.Summary && sa.fullyInit[v.Obj] {
+			// the value of a small, fully tracked array of structs (a local table): a snapshot of the
+			// ranges of its integer fields, so that an element read from the copy at an unknown index
+			// is known to lie in the range of that field over all elements
+			if es, isStruct := arr.Elem().Underlying().(*types.Struct); isStruct && arr.Len() <= 64 {
+				snap := map[string]AVal{}
+				for fi := 0; fi < es.NumFields(); fi++ {
+					f := es.Field(fi)
+					rg, isInt := intRange(f.Type())
+					if !isInt {
+						continue
+					}
+					iv, okAll := Itv{posInf, negInf}, true
+					for k := int64(0); k < arr.Len(); k++ {
+						c, has := st.mem[v.Obj][fmt.Sprintf("%s[%d].%s", v.Path, k, f.Name())]
+						if !has || c.Kind != avInt || c.Lin == nil {
+							okAll = false
+							break
+						}
+						iv = iv.join(st.linItv(c.Lin))
+					}
+					if okAll {
+						a := sa.mAtom(fr, exprText(x)+"[*]."+f.Name(), rg)
+						st.itv[a] = iv.meet(rg)
+						snap[f.Name()] = AVal{Kind: avInt, Lin: linAtom(a), Type: f.Type()}
+					}
+				}
+				if len(snap) > 0 {
+					lv.Fields = snap
+				}
+			}
+		}
+		if g, ok := x.X.(*ssa.Global); ok && lv.Kind == avUnknown {
+			if _, isArr := x.Type().Underlying().(*types.Array); isArr && sa.readOnlyTable(g) {
+				// the value of a read-only table: remembered, so that an element read from the copy is
+				// known to be one of the table's elements
+				lv.Obj, lv.Path = v.Obj, "table:"+g.Pkg.Pkg.Path()+"."+g.Name()
+				sa.tableOf(lv.Path, g)
+			}
+		}
 		if g, ok := x.X.(*ssa.Global); ok && g.Pkg != nil && relPkg(g.Pkg.Pkg) == "logger" && lv.Kind == avPtr {
 			// premise: the logger handles are set once by logger.init from logrus.WithFields (never nil) and never written again (C19)
 			lv.NonNil = true
@@ -798,4 +917,368 @@ func repoFn(f *ssa.Function) bool {
 		return IsRepoPkg(f.Object().Pkg())
 	}
 	return false
+}
+
+
+// nonNilTable: v is a load of a package-level map variable that is stored and updated only in its
+// package initialiser, and every value put into it there is a non-nil function or address.
+func (sa *Safe) nonNilTable(v ssa.Value) bool {
+	ld, ok := v.(*ssa.UnOp)
+	if !ok || ld.Op != token.MUL {
+		return false
+	}
+	g, ok := ld.X.(*ssa.Global)
+	if !ok || g.Pkg == nil || !IsRepoPkg(g.Pkg.Pkg) {
+		return false
+	}
+	if sa.tableMemo == nil {
+		sa.tableMemo = map[*ssa.Global]bool{}
+	}
+	if r, done := sa.tableMemo[g]; done {
+		return r
+	}
+	good, updates := true, 0
+	for fn := range sa.w.AllFuncs() {
+		if fn.Blocks == nil {
+			continue
+		}
+		inInit := fn.Pkg == g.Pkg && fn.Name() == "init"
+		for _, b := range fn.Blocks {
+			for _, ins := range b.Instrs {
+				switch x := ins.(type) {
+				case *ssa.Store:
+					if x.Addr == ssa.Value(g) {
+						if !inInit {
+							good = false
+						} else if _, isMake := x.Val.(*ssa.MakeMap); !isMake {
+							good = false
+						}
+					}
+				case *ssa.MapUpdate:
+					fromG := false
+					switch m := x.Map.(type) {
+					case *ssa.UnOp:
+						fromG = m.Op == token.MUL && m.X == ssa.Value(g)
+					case *ssa.MakeMap:
+						// the literal being built: it is this table if it is what init stores into g
+						for _, r := range *m.Referrers() {
+							if st, isSt := r.(*ssa.Store); isSt && st.Addr == ssa.Value(g) {
+								fromG = true
+							}
+						}
+					}
+					if !fromG {
+						continue
+					}
+					if !inInit {
+						good = false
+						continue
+					}
+					updates++
+					switch x.Value.(type) {
+					case *ssa.MakeClosure, *ssa.Function, *ssa.Alloc:
+					default:
+						good = false
+					}
+				default:
+					// the address of the variable taken, or the map handed to something that could write it
+					if inInit {
+						continue
+					}
+					for _, op := range ins.Operands(nil) {
+						if *op == ssa.Value(g) {
+							if u, isLoad := ins.(*ssa.UnOp); !isLoad || u.Op != token.MUL {
+								good = false
+							}
+						}
+					}
+				}
+			}
+		}
+	}
+	good = good && updates > 0
+	sa.tableMemo[g] = good
+	return good
+}
+
+
+// ---- read-only package-level tables (arrays of integers or of structs of integers) ----
+
+func (sa *Safe) tableOf(path string, g *ssa.Global) {
+	if sa.tableByPath == nil {
+		sa.tableByPath = map[string]*ssa.Global{}
+	}
+	sa.tableByPath[path] = g
+}
+
+// readOnlyTable: the package-level variable is written only by its package initialiser, with
+// constant integers stored into constant positions, and its address is not taken elsewhere.
+func (sa *Safe) readOnlyTable(g *ssa.Global) bool {
+	if g.Pkg == nil || !IsRepoPkg(g.Pkg.Pkg) {
+		return false
+	}
+	if sa.tableInfo == nil {
+		sa.tableInfo = map[*ssa.Global]map[string]Itv{}
+	}
+	if info, done := sa.tableInfo[g]; done {
+		return info != nil
+	}
+	info := map[string]Itv{}
+	good := true
+	// resolve an address to (rooted at g, path with every constant index replaced by [*])
+	var rooted func(v ssa.Value) (string, bool, bool)
+	rooted = func(v ssa.Value) (path string, atG bool, constIdx bool) {
+		switch a := v.(type) {
+		case *ssa.Global:
+			return "", a == g, true
+		case *ssa.IndexAddr:
+			p, ok, ci := rooted(a.X)
+			_, isC := a.Index.(*ssa.Const)
+			return p + "[*]", ok, ci && isC
+		case *ssa.FieldAddr:
+			p, ok, ci := rooted(a.X)
+			st, _ := a.X.Type().Underlying().(*types.Pointer).Elem().Underlying().(*types.Struct)
+			if st == nil {
+				return "", false, false
+			}
+			return p + "." + st.Field(a.Field).Name(), ok, ci
+		}
+		return "", false, false
+	}
+	for fn := range sa.w.AllFuncs() {
+		if fn.Blocks == nil {
+			continue
+		}
+		inInit := fn.Pkg == g.Pkg && fn.Name() == "init"
+		for _, b := range fn.Blocks {
+			for _, ins := range b.Instrs {
+				switch x := ins.(type) {
+				case *ssa.Store:
+					p, atG, constIdx := rooted(x.Addr)
+					if !atG {
+						if x.Val == ssa.Value(g) {
+							good = false // the address of the table is stored somewhere
+						}
+						continue
+					}
+					c, isC := x.Val.(*ssa.Const)
+					if !inInit || !constIdx || !isC || c.Value == nil || c.Value.Kind() != constant.Int {
+						good = false
+						continue
+					}
+					n, exact := constant.Int64Val(c.Value)
+					if !exact {
+						good = false
+						continue
+					}
+					iv, has := info[p]
+					if !has {
+						iv = Itv{n, n}
+					} else {
+						iv = iv.join(Itv{n, n})
+					}
+					info[p] = iv
+				case *ssa.UnOp, *ssa.IndexAddr, *ssa.FieldAddr, *ssa.DebugRef:
+					// loads and address computations: fine (stores through them are seen above)
+				default:
+					if inInit {
+						continue
+					}
+					for _, op := range ins.Operands(nil) {
+						if *op == ssa.Value(g) {
+							good = false // handed to a call, converted, ...
+						}
+					}
+				}
+			}
+		}
+	}
+	// an address derived from the table that escapes (slice of it, passed on) is not followed: require
+	// that every IndexAddr / FieldAddr rooted at g is used only by loads, further address steps or stores in init
+	if good {
+		for fn := range sa.w.AllFuncs() {
+			if fn.Blocks == nil || (fn.Pkg == g.Pkg && fn.Name() == "init") {
+				continue
+			}
+			for _, b := range fn.Blocks {
+				for _, ins := range b.Instrs {
+					v, isV := ins.(ssa.Value)
+					if !isV {
+						continue
+					}
+					if _, atG, _ := rooted(v); !atG || v == ssa.Value(g) {
+						continue
+					}
+					for _, r := range *v.Referrers() {
+						switch u := r.(type) {
+						case *ssa.UnOp, *ssa.IndexAddr, *ssa.FieldAddr, *ssa.DebugRef:
+						case *ssa.Store:
+							if u.Addr == v {
+								good = false
+							} else {
+								good = false
+							}
+						default:
+							good = false
+						}
+					}
+				}
+			}
+		}
+	}
+	if !good || len(info) == 0 {
+		sa.tableInfo[g] = nil
+		return false
+	}
+	// elements never stored hold the zero value
+	for p, iv := range info {
+		info[p] = iv.join(Itv{0, 0})
+	}
+	sa.tableInfo[g] = info
+	return true
+}
+
+// tableElem: an element (or, with sub, a part of an element) of a read-only table at an unknown
+// index: integers get the range of the values the initialiser stores, structs are assembled field by field.
+func (sa *Safe) tableElem(fr *frame, st *State, g *ssa.Global, sub string, t types.Type, desc string) AVal {
+	info := sa.tableInfo[g]
+	path := "[*]" + sub
+	if rg, isInt := intRange(t); isInt {
+		if iv, ok := info[path]; ok {
+			a := sa.mAtom(fr, desc, rg)
+			st.itv[a] = iv.meet(rg)
+			return AVal{Kind: avInt, Lin: linAtom(a), Type: t}
+		}
+		return sa.freshM(fr, st, t, desc, nilMaybe)
+	}
+	if stt, isStruct := t.Underlying().(*types.Struct); isStruct {
+		v := AVal{Kind: avStruct, Fields: map[string]AVal{}, Type: t}
+		for i := 0; i < stt.NumFields(); i++ {
+			f := stt.Field(i)
+			v.Fields[f.Name()] = sa.tableElem(fr, st, g, sub+"."+f.Name(), f.Type(), desc+"."+f.Name())
+		}
+		return v
+	}
+	return sa.freshM(fr, st, t, desc, nilMaybe)
+}
+
+
+// tableAddr: the package-level variable an address is computed from, with the path pattern
+// ("[*].cell"); nil when the address is not a chain of index / field steps from a global.
+func tableAddr(v ssa.Value) (*ssa.Global, string) {
+	switch a := v.(type) {
+	case *ssa.Global:
+		return a, ""
+	case *ssa.IndexAddr:
+		if g, p := tableAddr(a.X); g != nil {
+			return g, p + "[*]"
+		}
+	case *ssa.FieldAddr:
+		if g, p := tableAddr(a.X); g != nil {
+			if st, ok := a.X.Type().Underlying().(*types.Pointer).Elem().Underlying().(*types.Struct); ok {
+				return g, p + "." + st.Field(a.Field).Name()
+			}
+		}
+	}
+	return nil, ""
+}
+
+
+// intTable: v is a load of a package-level map that only its package initialiser writes, with
+// constant integer values; returns the range of those values joined with the zero value.
+func (sa *Safe) intTable(v ssa.Value) (Itv, bool) {
+	ld, ok := v.(*ssa.UnOp)
+	if !ok || ld.Op != token.MUL {
+		return Itv{}, false
+	}
+	g, ok := ld.X.(*ssa.Global)
+	if !ok || g.Pkg == nil || !IsRepoPkg(g.Pkg.Pkg) {
+		return Itv{}, false
+	}
+	if sa.intTableMemo == nil {
+		sa.intTableMemo = map[*ssa.Global]*Itv{}
+	}
+	if r, done := sa.intTableMemo[g]; done {
+		if r == nil {
+			return Itv{}, false
+		}
+		return *r, true
+	}
+	good, iv, n := true, Itv{0, 0}, 0
+	for fn := range sa.w.AllFuncs() {
+		if fn.Blocks == nil {
+			continue
+		}
+		inInit := fn.Pkg == g.Pkg && fn.Name() == "init"
+		for _, b := range fn.Blocks {
+			for _, ins := range b.Instrs {
+				switch x := ins.(type) {
+				case *ssa.Store:
+					if x.Addr == ssa.Value(g) {
+						if _, isMake := x.Val.(*ssa.MakeMap); !inInit || !isMake {
+							good = false
+						}
+					} else if x.Val == ssa.Value(g) {
+						good = false
+					}
+				case *ssa.MapUpdate:
+					fromG := false
+					switch m := x.Map.(type) {
+					case *ssa.UnOp:
+						fromG = m.Op == token.MUL && m.X == ssa.Value(g)
+					case *ssa.MakeMap:
+						for _, r := range *m.Referrers() {
+							if st, isSt := r.(*ssa.Store); isSt && st.Addr == ssa.Value(g) {
+								fromG = true
+							}
+						}
+					}
+					if !fromG {
+						continue
+					}
+					c, isC := x.Value.(*ssa.Const)
+					if !inInit || !isC || c.Value == nil || c.Value.Kind() != constant.Int {
+						good = false
+						continue
+					}
+					if cv, exact := constant.Int64Val(c.Value); exact {
+						iv = iv.join(Itv{cv, cv})
+						n++
+					} else {
+						good = false
+					}
+				case *ssa.UnOp:
+					if x.Op == token.MUL && x.X == ssa.Value(g) && !inInit {
+						// the loaded map must only be looked up (or ranged over / measured)
+						for _, r := range *x.Referrers() {
+							switch u := r.(type) {
+							case *ssa.Lookup, *ssa.Range, *ssa.DebugRef:
+							case *ssa.Call:
+								if bi, isB := u.Call.Value.(*ssa.Builtin); !isB || bi.Name() != "len" {
+									good = false
+								}
+							default:
+								good = false
+							}
+						}
+					}
+				default:
+					if inInit {
+						continue
+					}
+					for _, op := range ins.Operands(nil) {
+						if *op == ssa.Value(g) {
+							good = false
+						}
+					}
+				}
+			}
+		}
+	}
+	if !good || n == 0 {
+		sa.intTableMemo[g] = nil
+		return Itv{}, false
+	}
+	sa.intTableMemo[g] = &iv
+	return iv, true
 }
